@@ -20,8 +20,8 @@ def run(tier):
               '(tuple key, string key, config text, block) comparing accept/reject, error class and the whole '
               'projected store after each step; non-trivial = a rejected binding or a **kwargs-only name')
   cc.model_check(rep, 'MC_BindValidation_quick')
-  n = 300 if tier == 'quick' else 4000
-  cc.replay_behaviours(rep, 'GinCore_Sim_bindval', num=n, nontrivial=_nontrivial)
+  n = 200 if tier == 'quick' else 4000
+  cc.replay_behaviours(rep, 'GinCore_Sim_bindval', num=n, nontrivial=_nontrivial, generate=n * 6)
   return rep.finish()
 
 
